@@ -88,6 +88,8 @@ Proof.
 Qed.
 Lemma reach_run : forall K s ops, good K = true -> Reach K s -> Reach K (mrun K s ops).
 Proof. intros K s ops HK. apply (mrun_ind K (Reach K)). intros. apply reach_step; assumption. Qed.
+Lemma reach_from_init : forall K nt ops, good K = true -> Reach K (mrun K (st0 nt) ops).
+Proof. intros K nt ops HK. exact (reach_run K (st0 nt) ops HK (reach_init K nt)). Qed.
 
 (* ------------------------------------------------------------------ (a) nothing logged through a logger is lost *)
 Lemma erase_step_drained : forall K s o u, good K = true -> Reach K s -> In u (elog (mstep K s o)) -> ~ In u (elog s) ->
